@@ -14,7 +14,7 @@ case "$D" in
  mutants/*)
   P=$(echo "$D" | cut -d/ -f2)
   EXP=$(grep -m1 '^# expect:' "$D" | sed 's/# expect: *//')
-  OUT=$("$VERIF/bin/arcacheck" -repo "$WT" -verif "$VERIF" -property $P -no-evidence 2>&1)
+  OUT=$("${ARCA:-$VERIF/bin/arcacheck}" -repo "$WT" -verif "$VERIF" -property $P -no-evidence 2>&1)
   HIT=""
   for R in $(echo $EXP | tr ',' ' '); do
     if echo "$OUT" | grep -q "VIOLATED $R[a-z]\? \|UNDECIDED $R[a-z]\? "; then HIT="$HIT $R"; fi
@@ -23,6 +23,6 @@ case "$D" in
     ANY=$(echo "$OUT" | grep "VIOLATED\|UNDECIDED" | awk '{print $2}' | sort -u | tr '\n' ' ')
     echo "MISSED   $D expected $EXP (fired: ${ANY:-none})"; fi;;
  *)
-  OUT=$("$VERIF/bin/arcacheck" -repo "$WT" -verif "$VERIF" -property all -no-evidence 2>&1 | grep "VIOLATED\|UNDECIDED" | awk '{print $1,$2,$3}' | sort -u | tr '\n' ';')
+  OUT=$("${ARCA:-$VERIF/bin/arcacheck}" -repo "$WT" -verif "$VERIF" -property all -no-evidence 2>&1 | grep "VIOLATED\|UNDECIDED" | awk '{print $1,$2,$3}' | sort -u | tr '\n' ';')
   if [ -z "$OUT" ]; then echo "SILENT   $D"; else echo "ALARM    $D  $OUT"; fi;;
 esac
